@@ -1,0 +1,58 @@
+//go:build verif
+
+// Accessors for the verification harness in /verif (build tag "verif").
+// This file only adds exported wrappers around unexported items; it changes
+// no behaviour and is absent from normal builds.
+
+package connector
+
+import "time"
+
+// VerifTimer is the exported twin of stoppableTimer.
+type VerifTimer interface {
+	Stop() bool
+}
+
+// VerifClock is the exported twin of the persister's clock interface.
+type VerifClock interface {
+	Now() time.Time
+	AfterFunc(d time.Duration, f func()) VerifTimer
+}
+
+type verifClockAdapter struct{ c VerifClock }
+
+func (a verifClockAdapter) Now() time.Time { return a.c.Now() }
+
+func (a verifClockAdapter) AfterFunc(d time.Duration, f func()) stoppableTimer {
+	return a.c.AfterFunc(d, f)
+}
+
+// VerifSetClock swaps the persister's clock (as the package's own tests do
+// with their fakeClock). Must be called before the persister is used.
+func VerifSetClock(p *Persister, c VerifClock) {
+	p.clock = verifClockAdapter{c}
+}
+
+// VerifSetSourceTimings sets the test-only overrides of a Source: the bounded
+// teardown wait and the deferred-ack retry policy (zero keeps the default).
+func VerifSetSourceTimings(s *Source, teardownFlushTimeout time.Duration, maxRetries int, backoffCap time.Duration) {
+	s.teardownFlushTimeout = teardownFlushTimeout
+	s.deferredAckMaxRetries = maxRetries
+	s.deferredAckBackoffCap = backoffCap
+}
+
+// VerifSourceQueues reports the lengths of the pending / deferred ack queues
+// and the durable sequence number (read under ackMu).
+func VerifSourceQueues(s *Source) (pending, deferred int, nextSeq, durableSeq uint64, closed bool) {
+	s.ackMu.Lock()
+	defer s.ackMu.Unlock()
+	return len(s.pendingAcks), len(s.deferredAckQueue), s.nextAckSeq, s.durableAckSeq, s.deferredAckClosed
+}
+
+// VerifPersisterBatchLen reports how many connectors wait in the persister's
+// current batch and the bundle count (read under m).
+func VerifPersisterBatchLen(p *Persister) (batch, bundleCount int) {
+	p.m.Lock()
+	defer p.m.Unlock()
+	return len(p.batch), p.bundleCount
+}
